@@ -284,6 +284,40 @@ pub fn run(ctx: &Ctx) -> i32 {
             check_list(p, &list, acc);
         }
     }));
+    // histories: after a refused -perm argument (error in the first, second, third clause) every
+    // single clause and a few octal values must still denote what they denote on a fresh thread
+    {
+        let refused = ["u=r,g+q", "q", "u+r,g=w,o-z", "u=r,g=w!", "99999", "u+rwx,", "a=rwx,u-r,q"];
+        let res = std::thread::scope(|s| {
+            let cl = &cl;
+            s.spawn(move || {
+                let mut a = Acc::new();
+                for r in refused {
+                    for c in cl.iter() {
+                        let _ = real_perm(r);
+                        check_list("", &[c], &mut a);
+                    }
+                    let _ = real_perm(r);
+                    check_octal("-", "0644", 0o644, &mut a);
+                }
+                a
+            })
+            .join()
+            .unwrap()
+        });
+        let renamed: Vec<Violation> = res.violations.values().map(|(v, _)| Violation::new(format!("{}:after-a-refused-argument", v.sig), format!("after a refused -perm argument on the same thread: {}", v.what), v.witness.clone())).collect();
+        let mut r2 = res;
+        r2.violations.clear();
+        for v in renamed {
+            // the known '-' finding shows here too: keep its signature so it stays known
+            if v.sig.starts_with("C08:minus-clause-clears-complement") {
+                r2.violate(Violation::new("C08:minus-clause-clears-complement", v.what, v.witness));
+            } else {
+                r2.violate(v);
+            }
+        }
+        acc = acc.merge(r2);
+    }
     // emitted comparisons
     let kinds = [PermKind::Equal, PermKind::AtLeast, PermKind::Any];
     acc = acc.merge(par_cases(4096 * 3, |i, acc| check_policy(kinds[(i % 3) as usize], (i / 3) as u32, false, acc)));
